@@ -3,8 +3,10 @@
 package c04
 
 import (
+	"bytes"
 	"encoding/json"
 	"fmt"
+	"github.com/google/pprof/verif/internal/wire"
 	"math/rand"
 	"net/url"
 	"sort"
@@ -651,6 +653,23 @@ func run(c *harness.Ctx) harness.Result {
 			c.Stat("split_source_points", 1)
 			if msg = checkFormats(c, whole, o, profs, srcs); msg != "" {
 				msg = "given as two sources " + fmt.Sprint(srcs) + " (second one with its own ids and rotated sample types): " + msg
+			}
+		}
+		if msg == "" && k == 0 && c.Index%5 == 1 {
+			// the same profile arriving as a file written by another producer: packed lists in several
+			// chunks and as single elements (a valid form of the same message)
+			var enc bytes.Buffer
+			if err := p.WriteUncompressed(&enc); err == nil && enc.Len() > 0 {
+				if alt, err := wire.Rechunk(enc.Bytes(), func(n int) int { return r.Intn(n) }); err == nil {
+					if q, err := profile.ParseUncompressed(alt); err != nil {
+						msg = fmt.Sprintf("the profile encoded with its packed lists split into several chunks is rejected: %v", err)
+					} else {
+						c.Stat("chunked_encoding_points", 1)
+						if msg = checkFormats(c, p, o, map[string]*profile.Profile{"p": q}, []string{"p"}); msg != "" {
+							msg = "read from an encoding whose packed lists come in several chunks: " + msg
+						}
+					}
+				}
 			}
 		}
 		if msg != "" {
